@@ -211,6 +211,14 @@ def mk_app(fn, args=(), kw=()):
             # element j of the diagonal over the last two axes: diagonal(M)[..., j] = M[..., j, j]
             return mk_app("getitem", [base.args[0], Tup([Const(Ellipsis), idx.items[1], idx.items[1]])])
         _full = App("slice", (Const(None), Const(None), Const(None)))
+        if isinstance(idx, App) and idx.fn == "slice" and len(idx.args) == 3:
+            lo_, hi_, st_ = idx.args
+            if isinstance(st_, App) and st_.fn == "ite" and len(st_.args) == 3:
+                # a step chosen by a condition: x[::(-1 if c else 1)] = (x[::-1] if c else x)
+                c_, a_, b_ = st_.args
+                return mk_app("ite", [c_, mk_app("getitem", [base, App("slice", (lo_, hi_, a_))]), mk_app("getitem", [base, App("slice", (lo_, hi_, b_))])])
+            if lo_ == Const(None) and hi_ == Const(None) and st_ == Const(1):
+                return base         # x[::1] = x
         if isinstance(base, App) and base.fn == "attr:T" and len(base.args) == 1 and not isinstance(idx, Tup) and not (isinstance(idx, App) and idx.fn == "slice"):
             inner = base.args[0]
             two_d = isinstance(inner, App) and inner.fn == "reshape" and len(inner.args) == 2 and isinstance(inner.args[1], Tup) and len(inner.args[1].items) == 2
